@@ -1011,7 +1011,8 @@ def _owned_elements(factory, bound, module_helpers=None):
                     r = root(n.value, at)
                     for t in n.targets:
                         for nm in targets(t):
-                            new_events.setdefault(nm, []).append((at, r, id(n) in top, False))
+                            # (an assignment nested in a loop / if of this top-level statement is seen by the rest of that statement)
+                            new_events.setdefault(nm, []).append((at, r, id(n) in top, id(n) not in top))
                 elif isinstance(n, (ast.For, ast.AsyncFor)):
                     r = root(n.iter, at)
                     for nm in targets(n.target):
@@ -1581,3 +1582,90 @@ def r34_one_shot(ctx, rule='R34', helpers_only=False):
                      'the factory creates %s once, when the step is constructed, and %s() uses it on every run: the second run of the '
                      'same Flow object finds it used up / closed' % (kind, used_in[0]))
     return n_inst
+
+
+# ---------------------------------------------------------------------- R35 STATEFUL DEFAULT ARGUMENTS
+
+_R35_CONTROL = '''
+import hashlib
+def digest(f, hasher=hashlib.md5()):
+    hasher.update(f.read())
+    return hasher
+
+def fresh(f, hasher=None):
+    hasher = hasher or hashlib.md5()
+    hasher.update(f.read())
+    return hasher
+
+def collect(x, into=[]):
+    into.append(x)
+    return into
+
+def configured(x, options={}):
+    return options.get(x)
+'''
+
+_R35_MUTATORS = {'update', 'append', 'extend', 'add', 'insert', 'pop', 'remove', 'clear', 'setdefault', 'write', 'put', 'popitem',
+                 'discard', 'sort', 'reverse', 'send', 'close', 'seek', 'read', '__next__'}
+
+
+def stateful_defaults(tree):
+    """A default argument is evaluated once, when the function is defined: an object created there (a hasher, a list, a store) is
+    shared by every call that does not pass its own.  -> [(function node, parameter name, default node, use node)] where the function
+    changes the state of the parameter (a mutator call on it, a store into it, next()/iteration of it)."""
+    out = []
+    for fn in ast.walk(tree):
+        if not isinstance(fn, (ast.FunctionDef, ast.AsyncFunctionDef)):
+            continue
+        a = fn.args
+        pos = a.posonlyargs + a.args
+        pairs = list(zip(pos[len(pos) - len(a.defaults):], a.defaults)) + [(p, d) for p, d in zip(a.kwonlyargs, a.kw_defaults) if d is not None]
+        for p, d in pairs:
+            created = isinstance(d, (ast.List, ast.Dict, ast.Set, ast.ListComp, ast.DictComp, ast.SetComp)) or \
+                (isinstance(d, ast.Call) and not (isinstance(d.func, ast.Name) and d.func.id in (
+                    'frozenset', 'tuple', 'object', 'str', 'int', 'float', 'bool', 'bytes', 'range')) and
+                 not (isinstance(d.func, ast.Attribute) and d.func.attr in ('compile',)))
+            if not created:
+                continue
+            rebound = any(isinstance(n, ast.Name) and n.id == p.arg and isinstance(n.ctx, ast.Store) for n in ast.walk(fn))
+            use = None
+            # (the function's own body: what a nested step function does to a factory's arguments is R34's question, which knows
+            # about entries that are reset per run)
+            for n in _own_walk(fn):
+                if isinstance(n, ast.Call) and isinstance(n.func, ast.Attribute) and isinstance(n.func.value, ast.Name) and \
+                        n.func.value.id == p.arg and n.func.attr in _R35_MUTATORS and not _fixed_keys_update(n):
+                    use = n
+                elif isinstance(n, ast.Subscript) and isinstance(n.ctx, (ast.Store, ast.Del)) and isinstance(n.value, ast.Name) and \
+                        n.value.id == p.arg and not isinstance(n.slice, ast.Constant):
+                    use = n
+                elif isinstance(n, ast.Call) and isinstance(n.func, ast.Name) and n.func.id == 'next' and n.args and \
+                        isinstance(n.args[0], ast.Name) and n.args[0].id == p.arg:
+                    use = n
+                elif isinstance(n, ast.AugAssign) and isinstance(n.target, ast.Name) and n.target.id == p.arg:
+                    use = n
+            if use is not None and not rebound:
+                out.append((fn, p.arg, d, use))
+    return out
+
+
+def r35_stateful_defaults(ctx, include=None, rule='R35'):
+    run = ctx.run
+    run.rule(rule, 'STATEFUL-DEFAULTS: no function changes the state of an object that was created in its own default argument (such an '
+                   'object is made once, when the function is defined, and shared by all calls: a hasher keeps what earlier files fed it, '
+                   'a list keeps the items of earlier calls)')
+    got = [(f.name, p) for f, p, d, x in stateful_defaults(ast.parse(_R35_CONTROL))]
+    if got != [('digest', 'hasher'), ('collect', 'into')]:
+        raise AnalysisError('R35 self-check failed: %s' % got)
+    n = 0
+    for m in sorted(ctx.repo.modules.values(), key=lambda m: m.name):
+        if include is not None and not include(m):
+            continue
+        n += 1
+        hits = stateful_defaults(m.tree)
+        for fn, p, d, x in hits:
+            run.fail(rule, where(ctx.repo, x), fq(ctx.repo, x), 'default %s=%s changed by %s' % (p, u(d), u(x)[:60]),
+                     'the parameter %s defaults to an object created when the function is defined (%s) and the function changes it: every '
+                     'call that relies on the default continues where the previous one stopped' % (p, u(d)))
+        if not hits:
+            run.ok(rule, m.relpath, m.name, 'no default argument object is changed by its function')
+    return n
